@@ -1072,7 +1072,8 @@ fn run_sql_script(cfg: &GridCfg, case_line: &str) -> Vec<String> {
                     continue;
                 }
                 let o = sql::run_stmt(&db, &tables, st);
-                if !matches!(st, sql::Stmt::Select(_)) && o.starts_with('E') {
+                // (as in the `sql` engine: a statement the parser or the binder rejects was never executed, the comparison goes on)
+                if !matches!(st, sql::Stmt::Select(_)) && o.starts_with('E') && o != "Ebind" && o != "Eparse" {
                     failed_dml = true;
                 }
                 if let Some(p) = sql::take_worker_panic() {
